@@ -205,7 +205,7 @@ GUARANTEE_MARKER = ('tao::pegtl::internal::raw_string_open',)
 
 
 def analyse(db, fn, never_false=frozenset(), linked=None, maxsteps=400000):
-    mon = BoundsMonitor(db, never_false, linked); ex = Exec(db, mon); ex.maxsteps = maxsteps
+    mon = BoundsMonitor(db, never_false, linked); ex = Exec(db, mon); ex.wrap_aware = True; ex.maxsteps = maxsteps
     st = State()
     st.av = st.sym(0, None).id
     inp = new_input(st)
